@@ -657,7 +657,7 @@ fn pazip_case_inner(cx: &mut Ctx, pi: usize, dict_kind: u64, payloads: &[Vec<u8>
 /// at distance `period`; [2, off, n] a global match dict[off..off+n].  The payload is what the parse describes.
 fn legacy_records_case(cx: &mut Ctx, period: usize, seed: u64, ops: &[Vec<u64>]) {
     let cell = "pazip/legacy_records";
-    cx.sum.cell_status(cell, "S-only");
+    cx.sum.cell_status(cell, "M+S");
     let cj = json!({"cell": cell, "period": period, "seed": seed, "ops": ops});
     cx.sum.eval(cell, &format!("lr {} {} {:?}", period, seed, ops), ops.len() >= 2);
     let mut r = Rng::new(seed ^ 0xC02);
